@@ -420,6 +420,7 @@ theorem slotTy_cons (t : FTy) (s : Seg) (r : Path) (d : FVal) :
   | str => simp [slotTy, mapOf, structOf]
   | int => simp [slotTy, mapOf, structOf]
   | opq k n => simp [slotTy, mapOf, structOf]
+  | iface n is => simp [slotTy, mapOf, structOf]
   | any => simp [slotTy, mapOf]
   | map e => simp [slotTy, mapOf]
   | struct n fs =>
@@ -691,29 +692,40 @@ theorem store_any (a : Taken) : (store .any a).isSome := by
   | none => simp [store, nilable]
   | some x => obtain ⟨ty, v⟩ := x; simp [store, assignable]
 
+/-- the static check and the slot typing agree, except below a non-empty interface (where the
+    check reports an intermediate interface and there is no slot) -/
 theorem extractTy_slotTy : ∀ (p : Path) (t x : FTy) (i : Bool),
-    extractTy true t p = some (x, i) → slotTy t p = some x := by
+    extractTy true t p = some (x, i) → (i = true → x = .any) → slotTy t p = some x := by
   intro p
   induction p with
-  | nil => intro t x i h; simp [extractTy] at h; simp [slotTy, h.1]
+  | nil => intro t x i h _; simp [extractTy] at h; simp [slotTy, h.1]
   | cons s r ih =>
-    intro t x i h
+    intro t x i h hi
     cases t with
-    | map e => simp only [extractTy] at h; simp only [slotTy]; exact ih e x i h
+    | map e => simp only [extractTy] at h; simp only [slotTy]; exact ih e x i h hi
     | any =>
-      simp only [extractTy, structOf] at h
+      simp only [extractTy, structOf, isIface] at h
       have hx : x = .any := by
         by_cases hr : r.isEmpty = true
         · simp [hr] at h; exact h.1.symm
         · simp [hr] at h; exact h.1.symm
       subst hx
       exact slotTy_any _
+    | iface n is =>
+      simp only [extractTy, structOf, isIface] at h
+      have hx : x = .iface n is ∧ i = true := by
+        by_cases hr : r.isEmpty = true
+        · simp [hr] at h; exact ⟨h.1.symm, h.2⟩
+        · simp [hr] at h; exact ⟨h.1.symm, h.2⟩
+      have := hi hx.2
+      rw [hx.1] at this
+      cases this
     | struct n fs =>
       simp only [extractTy, structOf] at h
       simp only [slotTy, structOf]
       cases hf : fieldTy fs s with
       | none => simp [hf] at h
-      | some ft => simp only [hf] at h ⊢; exact ih ft x i h
+      | some ft => simp only [hf] at h ⊢; exact ih ft x i h hi
     | ptr t' =>
       cases t' with
       | struct n fs =>
@@ -721,18 +733,18 @@ theorem extractTy_slotTy : ∀ (p : Path) (t x : FTy) (i : Bool),
         simp only [slotTy, structOf]
         cases hf : fieldTy fs s with
         | none => simp [hf] at h
-        | some ft => simp only [hf] at h ⊢; exact ih ft x i h
+        | some ft => simp only [hf] at h ⊢; exact ih ft x i h hi
       | _ =>
-        simp only [extractTy, structOf] at h
+        simp only [extractTy, structOf, isIface] at h
         by_cases hr : r.isEmpty = true <;> simp [hr] at h
     | str =>
-      simp only [extractTy, structOf] at h
+      simp only [extractTy, structOf, isIface] at h
       by_cases hr : r.isEmpty = true <;> simp [hr] at h
     | int =>
-      simp only [extractTy, structOf] at h
+      simp only [extractTy, structOf, isIface] at h
       by_cases hr : r.isEmpty = true <;> simp [hr] at h
     | opq k n =>
-      simp only [extractTy, structOf] at h
+      simp only [extractTy, structOf, isIface] at h
       by_cases hr : r.isEmpty = true <;> simp [hr] at h
 
 theorem takeStep_ok (f : TakeFacts) (ty : FTy) (val : FVal) (via : Bool) (s : Seg) (st : FTy) (v : FVal)
@@ -769,15 +781,47 @@ theorem takeStep_ok (f : TakeFacts) (ty : FTy) (val : FVal) (via : Bool) (s : Se
 
 theorem takeFrom_cons_ok {f : TakeFacts} {a b : Taken} {via : Bool} {s : Seg} {r : Path}
     (h : takeFrom f a via (s :: r) = .ok b) :
-    ∃ st v, takeStep f a via s = .ok (st, v) ∧ takeFrom f (unstore st v) (st == .any) r = .ok b := by
+    ∃ st v, takeStep f a via s = .ok (st, v) ∧ takeFrom f (unstore st v) (isIface st) r = .ok b := by
   simp only [takeFrom] at h
   cases hs : takeStep f a via s with
   | error e => simp [hs] at h
   | ok sv => obtain ⟨st, v⟩ := sv; simp only [hs] at h; exact ⟨st, v, rfl, h⟩
 
+theorem unstore_not_iface {t : FTy} (h : isIface t = false) (v : FVal) : unstore t v = some (t, v) := by
+  simp [unstore, h]
+
+/-- a segment applied to an interface type is never reported as "no intermediate interface" with a
+    slot type other than `any` -/
+theorem extractTy_iface_cons {t pf : FTy} {s : Seg} {r : Path} (ht : isIface t = true)
+    (h : extractTy true t (s :: r) = some (pf, false)) : pf = .any := by
+  cases t with
+  | any =>
+    simp only [extractTy, structOf, isIface] at h
+    by_cases hr : r.isEmpty = true
+    · simp [hr] at h; exact h.symm
+    · simp [hr] at h
+  | iface n is =>
+    simp only [extractTy, structOf, isIface] at h
+    by_cases hr : r.isEmpty = true <;> simp [hr] at h
+  | _ => simp [isIface] at ht
+
+/-- one step of the static check along one step of the extraction, below a type that is not an
+    interface -/
+theorem extractTy_step {f : TakeFacts} {t : FTy} {v : FVal} {via : Bool} {s : Seg} {r : Path} {st : FTy} {x : FVal}
+    (hstep : takeStep f (some (t, v)) via s = .ok (st, x)) :
+    extractTy true t (s :: r) = extractTy true st r := by
+  rcases takeStep_ok f t v via s st x hstep with ⟨kvs, rfl, rfl, hl⟩ | ⟨n, fs, kvs, rfl, rfl, hg⟩ | ⟨n, fs, kvs, rfl, rfl, hg⟩
+  · simp only [extractTy]
+  · have hty := fieldGet_ty fs kvs s
+    simp only [hg, Option.map_some] at hty
+    simp only [extractTy, structOf, ← hty]
+  · have hty := fieldGet_ty fs kvs s
+    simp only [hg, Option.map_some] at hty
+    simp only [extractTy, structOf, ← hty]
+
 /-- on a path that never crosses an interface the taken value carries the static type -/
 theorem takeFrom_tag (f : TakeFacts) : ∀ (p : Path) (t pf : FTy) (v : FVal) (via : Bool) (a : Taken),
-    extractTy true t p = some (pf, false) → pf ≠ .any →
+    extractTy true t p = some (pf, false) → isIface pf = false →
     takeFrom f (unstore t v) via p = .ok a → ∃ w, a = some (pf, w) := by
   intro p
   induction p with
@@ -785,40 +829,120 @@ theorem takeFrom_tag (f : TakeFacts) : ∀ (p : Path) (t pf : FTy) (v : FVal) (v
     intro t pf v via a h hne ht
     simp only [extractTy, Option.some.injEq, Prod.mk.injEq, and_true] at h
     subst h
-    simp only [takeFrom, unstore, hne, if_false, Except.ok.injEq] at ht
+    simp only [takeFrom, unstore_not_iface hne, Except.ok.injEq] at ht
     exact ⟨v, ht.symm⟩
   | cons s r ih =>
     intro t pf v via a h hne ht
     obtain ⟨st, x, hstep, hrest⟩ := takeFrom_cons_ok ht
-    have hany : ∀ (tt : FTy), tt = .any → extractTy true tt (s :: r) = some (pf, false) → False := by
-      intro tt htt hh
-      subst htt
-      simp only [extractTy, structOf] at hh
-      by_cases hr : r.isEmpty = true
-      · simp [hr] at hh; exact hne hh.symm
-      · simp [hr] at hh
-    by_cases hta : t = .any
-    · exact absurd h (fun hh => hany t hta hh)
-    · simp only [unstore, hta, if_false] at hstep
-      rcases takeStep_ok f t v via s st x hstep with ⟨kvs, rfl, rfl, hl⟩ | ⟨n, fs, kvs, rfl, rfl, hg⟩ | ⟨n, fs, kvs, rfl, rfl, hg⟩
-      · simp only [extractTy] at h
-        exact ih st pf x _ a h hne hrest
-      · simp only [extractTy, structOf] at h
-        have hty := fieldGet_ty fs kvs s
-        simp only [hg, Option.map_some] at hty
-        simp only [← hty] at h
-        exact ih st pf x _ a h hne hrest
-      · simp only [extractTy, structOf] at h
-        have hty := fieldGet_ty fs kvs s
-        simp only [hg, Option.map_some] at hty
-        simp only [← hty] at h
-        exact ih st pf x _ a h hne hrest
+    by_cases hta : isIface t = true
+    · have := extractTy_iface_cons hta h
+      subst this
+      simp [isIface] at hne
+    · have hta' : isIface t = false := by simpa using hta
+      rw [unstore_not_iface hta'] at hstep
+      rw [extractTy_step hstep] at h
+      exact ih st pf x _ a h hne hrest
+
+/-- whatever is found at the end of a path that never crosses an interface can be stored in a slot
+    of the path's static type (for an interface-typed end: the dynamic type implements it) -/
+theorem takeFrom_storable (f : TakeFacts) : ∀ (p : Path) (t pf : FTy) (v : FVal) (via : Bool) (a : Taken),
+    extractTy true t p = some (pf, false) →
+    takeFrom f (unstore t v) via p = .ok a → (store pf a).isSome := by
+  intro p
+  induction p with
+  | nil =>
+    intro t pf v via a h ht
+    simp only [extractTy, Option.some.injEq, Prod.mk.injEq, and_true] at h
+    subst h
+    simp only [takeFrom, Except.ok.injEq] at ht
+    subst ht
+    cases t with
+    | any =>
+      simp only [unstore, isIface, if_true]
+      cases v <;> simp [store, nilable, assignable, fits]
+    | iface n is =>
+      simp only [unstore, isIface, if_true]
+      cases v with
+      | box ty x =>
+        simp only []
+        by_cases hf : fits ty (.iface n is) = true
+        · simp only [hf, if_true, store]
+          simp only [fits] at hf
+          simp [assignable, hf]
+        · simp [hf, store, nilable]
+      | _ => simp [store, nilable]
+    | _ => simp [unstore, isIface, store, assignable]
+  | cons s r ih =>
+    intro t pf v via a h ht
+    obtain ⟨st, x, hstep, hrest⟩ := takeFrom_cons_ok ht
+    by_cases hta : isIface t = true
+    · have := extractTy_iface_cons hta h
+      subst this
+      exact store_any a
+    · have hta' : isIface t = false := by simpa using hta
+      rw [unstore_not_iface hta'] at hstep
+      rw [extractTy_step hstep] at h
+      exact ih st pf x _ a h hrest
+
+theorem extractTyF_expected : extractTyF Expected.C15.validate = extractTy true := rfl
+
+/-- the static check of a path that goes on below a slot it reached without crossing an interface
+    is the static check of the continuation on the slot's type -/
+theorem extractTy_append : ∀ (p : Path) (t x : FTy) (q : Path),
+    extractTy true t p = some (x, false) → x ≠ .any → extractTy true t (p ++ q) = extractTy true x q := by
+  intro p
+  induction p with
+  | nil =>
+    intro t x q h _
+    simp only [extractTy, Option.some.injEq, Prod.mk.injEq, and_true] at h
+    subst h; rfl
+  | cons s r ih =>
+    intro t x q h hx
+    by_cases hta : isIface t = true
+    · exact absurd (extractTy_iface_cons hta h) hx
+    · cases t with
+      | map e => simp only [extractTy, List.cons_append] at h ⊢; exact ih e x q h hx
+      | struct n fs =>
+        simp only [extractTy, structOf, List.cons_append] at h ⊢
+        cases hf : fieldTy fs s with
+        | none => simp [hf] at h
+        | some ft => simp only [hf] at h ⊢; exact ih ft x q h hx
+      | ptr t' =>
+        cases t' with
+        | struct n fs =>
+          simp only [extractTy, structOf, List.cons_append] at h ⊢
+          cases hf : fieldTy fs s with
+          | none => simp [hf] at h
+          | some ft => simp only [hf] at h ⊢; exact ih ft x q h hx
+        | _ =>
+          simp only [extractTy, structOf, isIface] at h
+          by_cases hr : r.isEmpty = true <;> simp [hr] at h
+      | any => simp [isIface] at hta
+      | iface n is => simp [isIface] at hta
+      | _ =>
+        simp only [extractTy, structOf, isIface] at h
+        by_cases hr : r.isEmpty = true <;> simp [hr] at h
+
+/-- with both facts `true` the fact-indexed static check is the one the theorems are about -/
+theorem extractTyG_eq (rt : Bool) : ∀ (p : Path) (t : FTy), extractTyG rt true true t p = extractTy rt t p := by
+  intro p
+  induction p with
+  | nil => intro t; simp [extractTyG, extractTy]
+  | cons s r ih =>
+    intro t
+    cases t with
+    | map e => simp only [extractTyG, extractTy]; exact ih e
+    | _ =>
+      simp only [extractTyG, extractTy, if_true]
+      split
+      · split <;> simp_all
+      · rfl
 
 theorem assign_of_validated (f : TakeFacts) (pt st : FTy) (v : FVal) (m : Mapping) (chk : Option (FTy × Bool))
     (a : Taken) (hv : validateOne Expected.C15.validate pt st m = some chk)
     (ht : take f pt v m.src = .ok a) (hc : runtimeCheck chk a = true) (d : FVal) :
     (assign st d m.dst a).isSome := by
-  simp only [validateOne, Expected.C15.validate] at hv
+  simp only [validateOne, extractTyF_expected] at hv
   cases hp : extractTy true pt m.src with
   | none => simp [hp] at hv
   | some pfi =>
@@ -828,8 +952,20 @@ theorem assign_of_validated (f : TakeFacts) (pt st : FTy) (v : FVal) (m : Mappin
     | some sfi =>
       obtain ⟨sf, sI⟩ := sfi
       simp only [hp, hs] at hv
-      rw [assign_isSome, extractTy_slotTy _ _ _ _ hs]
+      have hslot : slotTy st m.dst = some sf := by
+        refine extractTy_slotTy _ _ _ _ hs (fun hsI => ?_)
+        subst hsI
+        by_cases hsf : sf = .any
+        · exact hsf
+        · simp [hsf] at hv
+      rw [assign_isSome, hslot]
       simp only []
+      -- a value that passed a run-time checker against `sf` can be stored
+      have hchk : ∀ strict, runtimeCheck (some (sf, strict)) a = true → (store sf a).isSome := by
+        intro strict hc'
+        cases a with
+        | none => simp only [runtimeCheck] at hc'; simp [store, hc']
+        | some x => obtain ⟨ty, w⟩ := x; simp only [runtimeCheck] at hc'; simp [store, hc']
       by_cases hsI : sI = true
       · simp only [hsI, if_true] at hv
         by_cases hsf : sf = .any
@@ -839,29 +975,41 @@ theorem assign_of_validated (f : TakeFacts) (pt st : FTy) (v : FVal) (m : Mappin
         by_cases hpI : pI = true
         · simp only [hpI, if_true, Option.some.injEq] at hv
           subst hv
-          cases a with
-          | none => simp only [runtimeCheck] at hc; simp [store, hc]
-          | some x => obtain ⟨ty, w⟩ := x; simp only [runtimeCheck] at hc; simp [store, hc]
+          exact hchk _ hc
         · simp only [hpI, if_false, Bool.false_eq_true] at hv
           have hpI' : pI = false := by simpa using hpI
           subst hpI'
           simp only [checkAssignable] at hv
           by_cases h1 : sf = pf
           · subst h1
-            by_cases h2 : sf = .any
-            · subst h2; exact store_any a
-            · obtain ⟨w, hw⟩ := takeFrom_tag f m.src pt sf v false a hp h2 ht
-              subst hw
-              simp [store, assignable]
+            exact takeFrom_storable f m.src pt sf v false a hp ht
           · by_cases h2 : sf = .any
             · subst h2; exact store_any a
-            · by_cases h3 : pf = .any
-              · simp only [h1, h2, h3, if_false, if_true, Option.some.injEq] at hv
-                subst hv
-                cases a with
-                | none => simp only [runtimeCheck] at hc; simp [store, hc]
-                | some x => obtain ⟨ty, w⟩ := x; simp only [runtimeCheck] at hc; simp [store, hc]
-              · simp [h1, h2, h3] at hv
+            · by_cases h4 : implements pf sf = true
+              · -- a concrete source type that implements the target interface
+                have hpi : isIface pf = false := by
+                  cases sf <;> simp [implements] at h4
+                  exact h4.1
+                obtain ⟨w, hw⟩ := takeFrom_tag f m.src pt pf v false a hp hpi ht
+                subst hw
+                simp [store, assignable, h4]
+              · by_cases h3 : pf = .any
+                · subst h3
+                  simp only [h1, h2, h4, if_false, if_true, Option.some.injEq, Bool.false_eq_true] at hv
+                  subst hv
+                  exact hchk _ hc
+                · by_cases h5 : isIface pf = true ∧ implements sf pf = true
+                  · simp only [h1, h2, h3, h4, h5.1, h5.2, if_false, if_true, Option.some.injEq, Bool.false_eq_true] at hv
+                    subst hv
+                    exact hchk _ hc
+                  · simp only [h1, h2, h3, h4, if_false, Bool.false_eq_true] at hv
+                    by_cases h6 : isIface pf = true
+                    · have h7 : implements sf pf = false := by
+                        cases h8 : implements sf pf
+                        · rfl
+                        · exact absurd ⟨h6, h8⟩ h5
+                      simp [h6, h7] at hv
+                    · simp [h6] at hv
 
 theorem fieldMapE_ok (f : TakeFacts) (allow : Bool) (pt : FTy) (v : FVal) : ∀ (ms : List Mapping)
     (l : List (Mapping × Taken)), fieldMapE f allow pt v ms = .ok l →
